@@ -313,7 +313,10 @@ def r4_id_address(r, facts):
                 off = strip_casts(adds[0][2][1])
                 if off[0] == 'bin' and off[1].startswith('Mul'):
                     idxs = [strip_casts(y) for y in (off[2], off[3]) if strip_casts(y) == bid]
-                    strides = [y for y in (off[2], off[3]) if strip_casts(y)[0] == 'arg' and strip_casts(y)[2] == 'buf_size']
+                    def _is_stride(y):
+                        y = strip_casts(y)
+                        return (y[0] == 'arg' and y[2] == 'buf_size') or (y[0] == 'call' and y[1] == POOL + '::buf_size') or fam.last_field(y) == 'buf_size'
+                    strides = [y for y in (off[2], off[3]) if _is_stride(y)]
                     base = adds[0][2][0]
                     okn = bool(idxs) and bool(strides) and any(x[0] == 'call' and x[1] in ('std::alloc::alloc',) for x in subexprs(base)) and ln[0] == 'arg' and ln[2] == 'buf_size'
             r.inst('new() offers addr=%s.. bid=%s..' % (str(fl['addr'])[:80], str(fl['bid'])[:60]), n.where(loc))
